@@ -14,6 +14,7 @@ import functools
 import inspect
 
 from sim.harness import draw_knobs
+from checks._c10_helpers import install_time_grid
 
 ID = "C10"
 LEVEL = "exploration"
@@ -32,7 +33,7 @@ PROBES = ["enable_while_enabled", "disable_while_disabled", "enable_and_disable_
           "op_on_timer", "ball_search_started", "ball_search_flip", "tilt", "slam_tilt", "service_entered",
           "service_in_game", "game_ended", "lifecycle_disable_with_rules", "eos_repulse",
           "disable_with_button_held", "disable_with_repulse_hold", "kickback_fired", "ball_started_enable",
-          "rules_checked_nonempty", "final_clean_checked"]
+          "rules_checked_nonempty", "outside_play_checked", "final_clean_checked"]
 REAL = ["mpf.devices.flipper.Flipper", "mpf.devices.autofire.AutofireCoil", "mpf.devices.kickback.Kickback",
         "mpf.core.platform_controller.PlatformController + SoftwareEosRepulseManager",
         "mpf.core.switch_controller.SwitchController", "mpf.devices.driver.Driver", "mpf.core.ball_search.BallSearch",
@@ -226,6 +227,9 @@ def execute(ctx, plan):
     sim = ctx.new_sim("c10", platform="simhw", patches=_patches(cfg),
                       mode_patches={"tilt": {"tilt": {"settle_time": cfg["settle"],
                                                       "warnings_to_tilt": cfg["warnings"]}}})
+    # timer deadlines on a 1 ns grid: frozen simulated time + float noise would otherwise let MPF's "not yet,
+    # re-arm" loops (timed switch handlers, tilt settle time) spin for ever at one instant (see the helper)
+    install_time_grid(sim.loop)
     sim.boot()
     from mpf.core.platform_controller import PlatformController, SoftwareEosRepulseManager
     m = sim.machine
@@ -258,16 +262,45 @@ def execute(ctx, plan):
     hits = {d: [] for d in timeout}            # processed activations of the device's switch
     requests = {"n": 0}
 
+    # Second, absolute oracle for the last sentence of the statement, independent of ball_will_end /
+    # service_mode_entered being posted at all.  An "episode" starts whenever service mode is entered (seen through
+    # ServiceController.is_in_service()), a ball in play is tilted (event tilt) or a ball ends (ball_will_end; if
+    # MPF never posted it for this ball, the queue event ball_ending that follows it).  While the machine is in service, tilted, between balls
+    # or without a game, a device may be enabled only on behalf of a private enable request processed in the
+    # current episode (own[d] == episode); ball_started hands ownership to the game lifecycle (own[d] = None).
+    # Relaxation: "the machine tilts" is read as "a ball in play is tilted".  A tilt between two balls ends no
+    # ball, so MPF posts no ball_will_end until the next ball has started; a device enabled by a private request
+    # in that gap is not judged.  Likewise "no game is running" is reached through the last ball's end; a private
+    # enable between that ball end and the end of the game is the configuration's own doing.
+    episode = [0]
+    last_phase = {"service": False}
+    play = {"ball": False, "tilt": False, "end_seen": False}
+    own = {d: None for d in DEVS}
+
+    def update_phase():
+        g = m.game
+        if g is None:
+            play["ball"] = False
+        if not (g and g.tilted):
+            play["tilt"] = False
+        service = bool(m.service.is_in_service())
+        if service and not last_phase["service"]:
+            episode[0] += 1
+        last_phase["service"] = service
+        return {"service": service, "game": g is not None, "tilted": play["tilt"], "ball": play["ball"]}
+
     def m_enable(d, why):
         requests["n"] += 1
+        update_phase()
         if devobj[d]._enabled:
             ctx.probe("enable_while_enabled")
-        if why == "ball_started" and not devobj[d]._enabled:
-            pass
+        own[d] = None if why == "ball_started" else episode[0]
         model[d] = True
 
     def m_disable(d, why):
         requests["n"] += 1
+        update_phase()
+        own[d] = None
         if not devobj[d]._enabled:
             ctx.probe("disable_while_disabled")
         else:
@@ -294,6 +327,8 @@ def execute(ctx, plan):
         ctx.log("ev", "ball_started", t=loop.time())
         ctx.probe("ball_started_enable")
         phase["ball"] = True
+        update_phase()
+        play["ball"] = True
         for d in BALL_STARTED_DEVS:
             m_enable(d, "ball_started")
 
@@ -302,6 +337,10 @@ def execute(ctx, plan):
             ctx.log("ev", why, t=loop.time())
             if why == "ball_will_end":
                 phase["ball"] = False
+                update_phase()
+                play["ball"] = False
+                play["end_seen"] = True
+                episode[0] += 1
             if why == "service_mode_entered":
                 ctx.probe("service_entered")
                 phase["ball"] = False
@@ -338,7 +377,24 @@ def execute(ctx, plan):
                 ctx.probe(probe)
             ctx.log("ev", name, t=loop.time())
         on_event(name, h)
-    note("tilt", "tilt")
+
+    def h_tilt(**kwargs):
+        ctx.probe("tilt")
+        ctx.log("ev", "tilt", phase["ball"], t=loop.time())
+        update_phase()
+        if play["ball"]:
+            play["tilt"] = True
+            episode[0] += 1
+    on_event("tilt", h_tilt)
+
+    def h_ball_ending(**kwargs):
+        update_phase()
+        play["ball"] = False
+        if not play["end_seen"]:
+            # MPF went into ball_ending without having posted ball_will_end for this ball
+            episode[0] += 1
+        play["end_seen"] = False
+    on_event("ball_ending", h_ball_ending)
     note("slam_tilt", "slam_tilt")
     note("tilt_clear")
     note("ball_search_started", "ball_search_started")
@@ -517,6 +573,19 @@ def execute(ctx, plan):
                                       % (tag, now, d, c))
                     if k:
                         hw.sim_drivers[coilnum[c]].sim_enabled = False
+        # (5) service / tilt / no game: nothing is enabled on behalf of the game
+        cur = update_phase()
+        if cur["service"] or cur["tilted"] or not cur["game"] or not cur["ball"]:
+            where = ("service" if cur["service"] else "tilted" if cur["tilted"] else
+                     "no game" if not cur["game"] else "between balls")
+            for d in DEVS:
+                if en[d] and own[d] != episode[0]:
+                    k = ctx.violation("enabled_outside_play", "%s %s" % (d[0], where),
+                                      "%s at %.6f: %s is enabled (rules installed) although the machine is in "
+                                      "'%s' and no enable request was made since" % (tag, now, d, where))
+                    if k:
+                        own[d] = episode[0]
+            ctx.probe("outside_play_checked")
         for d in DEVS:
             prev_enabled[d] = en[d]
         g = m.game
